@@ -16,8 +16,8 @@ import insp_obs
 import os
 ID = 'C01'
 GEN = [('Gen/Insp_Consts.v', gen_insp.generate), ('Gen/Insp_Code.v', gen_insp.generate_code),
-       ('Gen/Insp_EngineCode.v', gen_insp_engine.generate)]
-EQUIV_FILES = ['Proofs/Insp_Equiv.v', 'Proofs/Insp_EngineEquiv.v', 'Proofs/Insp_FormatEquiv.v']
+       ('Gen/Insp_EngineCode.v', gen_insp_engine.generate), ('Gen/Insp_FormatCode.v', gen_insp_engine.generate_formats)]
+EQUIV_FILES = ['Proofs/Insp_Equiv.v', 'Proofs/Insp_EngineEquiv.v', 'Proofs/Insp_FormatEquiv.v', 'Proofs/Insp_FormatMatchEquiv.v']
 # further theorem files are picked up when present (VMDK / VHDX refinement, wrapper verdict)
 THEOREM_FILES = ['Properties/C01.v'] + [f for f in ('Properties/C01_Vmdk.v', 'Properties/C01_Vhdx.v', 'Properties/C01_Wrapper.v')
                                         if os.path.exists(os.path.join(os.path.dirname(os.path.dirname(os.path.dirname(os.path.abspath(__file__)))), 'coq', f))]
